@@ -62,6 +62,26 @@ def _opaque(t):
                                                  or (t[0] == "meth" and len(t) == 5 and t[1] in (("param", "self"), ("param", "cls")) and t[2] not in _ANCHORS))
 
 
+_PLAIN_CALLS = {"len", "bool", "int", "str", "sorted", "reversed", "set", "frozenset", "list", "tuple", "enumerate", "zip", "range", "max", "min",
+                "any", "all", "sum", "abs", "filter", "map", "dict"}
+
+
+def not_understood(v) -> bool:
+    """Does the reconstructed value contain a part the analysis did not follow -- a helper that could not be read as the value it
+    returns, a call of a function that is not a plain builtin, a list filled elsewhere, a value carried round a loop?  A verdict
+    "wrong" needs a value without such parts: an unexpected value that contains one is "cannot analyse"."""
+    for x in walk(v):
+        if not isinstance(x, tuple) or not x or not isinstance(x[0], str):
+            continue
+        if x[0] in ("unknown", "carried", "after", "mutated", "acc", "lambda", "record", "rectype", "raise"):
+            return True
+        if x[0] == "meth" and len(x) == 5 and (x[1] in (("param", "self"), ("param", "cls")) or x[1][0] == "global"):
+            return True
+        if x[0] == "call" and not (x[1][0] == "global" and x[1][1] in _PLAIN_CALLS):
+            return True
+    return False
+
+
 def scalar_constants(pkg, cls):
     """(module-level, class-level) scalar constants a method of `cls` may read: {name: ast.Constant} for names bound exactly once
     at module level of the class's file to a str / number literal, and for class attributes (MRO) bound to such a literal that no
@@ -509,7 +529,8 @@ class OdeModel:
                 self.sites.append(Site(role, f, "init"))
                 continue
             if f.kind not in ("augstore", "store"):
-                self.sites.append(Site(role, f, "other", problems=[("viol", "unexpected-writer", f"{f.kind} on {f.target}")]))
+                # (a table built / edited by list methods instead of indexed accumulation is a shape the site rules do not read)
+                self.sites.append(Site(role, f, "other", problems=[("unrec", "unexpected-writer", f"{f.kind} on {f.target}: not an indexed store")]))
                 continue
             self.sites.append(self._site(self._as_accumulation(f), role))
 
@@ -624,7 +645,8 @@ class OdeModel:
         # a factor that is an element of another (pre-computed) list or an accumulated value is text built elsewhere: the term cannot
         # be reconstructed here -- that is "cannot analyse", not a wrong term
         opaque = [h for h in factors if kind in ("reaction", "heat", "cool") and
-                  any(isinstance(x, tuple) and x and x[0] in ("elem", "acc", "carried", "item", "after") for x in walk(h[1] if h[0] == "fmt" else h))]
+                  (any(isinstance(x, tuple) and x and x[0] in ("elem", "acc", "carried", "item", "after") for x in walk(h[1] if h[0] == "fmt" else h))
+                   or not_understood(h[1] if h[0] == "fmt" else h))]
         if opaque:
             s.problems.append(("unrec", "product", f"the term is pasted from a value built elsewhere ({show(opaque[0])[:80]}): not reconstructible"))
             return s
@@ -681,7 +703,8 @@ class OdeModel:
                                        + "; ".join(show(c)[:80] for c in bf["fifs"])))
                 else:
                     s.rowbase = ("other", s.row[1])
-                    s.problems.append(("viol", "row-domain",
+                    # (wrong when the row species is an understood value that is not an occurrence of this reaction's lists)
+                    s.problems.append(("unrec" if not_understood(s.row[1]) else "viol", "row-domain",
                                        f"row does not range over the reaction's own reactant/product list: {show(s.row[1])[:160]}"))
             elif s.row:
                 s.problems.append(("viol", "row", "reaction term stored into the temperature row"))
@@ -731,7 +754,7 @@ class OdeModel:
             return
         m = as_map(core)
         if m is None:
-            s.problems.append(("viol", "product", f"factor list is not one factor per element of a list: {show(core)[:100]}"))
+            s.problems.append(("unrec" if not_understood(core) else "viol", "product", f"factor list is not one factor per element of a list: {show(core)[:100]}"))
             return
         bv, body, base, ifs = m
         s.seq = {"bv": bv, "body": body, "base": base, "ifs": ifs, "minus": minus}
@@ -743,9 +766,9 @@ class OdeModel:
         else:
             want_base = ("attr", ent, "reactants")
             if base != want_base:
-                s.problems.append(("viol", "product-base", f"product ranges over {show(base)}, expected {show(want_base)}"))
+                s.problems.append(("unrec" if not_understood(base) else "viol", "product-base", f"product ranges over {show(base)}, expected {show(want_base)}"))
             if body != Y(bv):
-                s.problems.append(("viol", "product-body", f"factor is {show(body)}, expected y[IDX_<alias of the reactant>]"))
+                s.problems.append(("unrec" if not_understood(body) else "viol", "product-body", f"factor is {show(body)}, expected y[IDX_<alias of the reactant>]"))
         # removed element and column variable
         if minus is not None:
             colvar = None
